@@ -18,6 +18,7 @@ The *quick* table is the same for every seed (so that a replay never depends on 
 The *thorough* table raises every quick type by one level and adds a seeded sample of --extra (100) further types
     (rank 1..4, static values 0..4, any index type; a third FULL, the rest LIGHT).
 Types whose static extents alone are not representable (std: Mandates) are never emitted.
+Every part additionally gets its share of the C19_WIDE / C19_EQ entries (see wide_and_eq_entries).
 Every type named by a saved case (replay/C19, violations/C19, known_findings.json probes) of harness C19_mdspan_<K> is
 added to part K with the full suite, so a replay of a case found with another seed or tier always finds its instantiation.
 Python 3 standard library only; deterministic in (seed, tier, part, nparts, saved cases).
@@ -136,6 +137,39 @@ def thorough_extra(seed, have, count):
     return out
 
 
+def wide_and_eq_entries():
+    """value-range checks (same for every seed and tier), spread round-robin over the parts:
+       C19_WIDE : extents types whose dynamic extents take LARGE values (pure arithmetic against 128-bit closed forms)
+       C19_EQ   : pairs of extents types compared with operator== / != (different index types, patterns, ranks)"""
+    wide = []
+    for it, _, _ in ITYPES:
+        for rank in (1, 2, 3, 4):
+            wide.append((it, (None,) * rank))
+    for it in ("i16", "u16", "i32", "u32", "i64", "u64"):
+        wide.append((it, (None, 3, None)))
+    for it in ("i32", "u32", "i64", "u64"):
+        wide.append((it, (1000, None)))
+    eq = []
+    names = [t[0] for t in ITYPES]
+    for i, a in enumerate(names):
+        for b in names[i:]:
+            eq.append(((a, (None,)), (b, (None,))))
+    for a, b in [("u8", "i32"), ("i8", "u16"), ("u16", "i64"), ("i32", "u64"), ("u32", "i64"), ("i16", "u32"), ("u8", "u64"), ("i64", "u64"), ("i32", "i32")]:
+        eq.append(((a, (None, None)), (b, (None, None))))
+        eq.append(((a, (None, None)), (b, (300, None))))
+        eq.append(((a, (None, 3)), (b, (None, None))))
+        eq.append(((a, (44, None)), (b, (300, None))))
+        eq.append(((a, (None,)), (b, (None, None))))
+        eq.append(((a, (None, None)), (b, (None,))))
+        eq.append(((a, ()), (b, (None,))))
+        eq.append(((a, ()), (b, ())))
+    return wide, eq
+
+
+def cxx_extents(it, pat):
+    return "etl::extents<%s%s>" % (IBYNAME[it][1], "".join(", " + ("D" if p is None else str(p)) for p in pat))
+
+
 TYPE_RE = re.compile(r"^(i8|u8|i16|u16|i32|u32|i64|u64)\[([0-9d,]*)\]$")
 
 
@@ -159,7 +193,7 @@ def saved_case_types(part):
             try:
                 with open(p) as f:
                     j = json.load(f)
-                if str(j.get("harness", "")) == mine:
+                if str(j.get("harness", "")) == mine and str(j.get("sub", "")) not in ("wide", "equality", "ctad"):
                     cases.append(str(j.get("case", "")))
             except Exception:
                 pass
@@ -203,6 +237,14 @@ def main():
     for it, pat, lv in mine:
         args = "".join(", " + ("D" if p is None else str(p)) for p in pat)
         lines.append('%s("%s", %s%s)' % (MACRO[lv], name_of(it, pat), IBYNAME[it][1], args))
+    wide, eq = wide_and_eq_entries()
+    for i, (it, pat) in enumerate(wide):
+        if i % a.nparts == a.part:
+            args = "".join(", " + ("D" if p is None else str(p)) for p in pat)
+            lines.append('C19_WIDE("%s", %s%s)' % (name_of(it, pat), IBYNAME[it][1], args))
+    for i, (x, y) in enumerate(eq):
+        if (i + 2) % a.nparts == a.part:
+            lines.append('C19_EQ("eq:%s~%s", (%s), (%s))' % (name_of(*x), name_of(*y), cxx_extents(*x), cxx_extents(*y)))
     path = os.path.join(a.out, "C19_types_%d.inc" % a.part)
     tmp = path + ".tmp%d" % os.getpid()
     with open(tmp, "w") as f:
